@@ -22,10 +22,12 @@
      generalized_is_segmented, ASSEMBLED: "for every public function, the array of a basis and of the basis in
        which every generalized shell is replaced by its single-column shells coincide".  Proved in full for
        evaluate_basis and evaluate_deriv_basis (C13_generalized_is_segmented_basis_eval(_deriv): any basis,
-       Cartesian / spherical / mixed, with transform).  For the two-index functions it is proved for one pair of
-       Cartesian shells (the two C13_generalized_is_segmented_assembled .._partial theorems: tiles in segment-major order); for
-       spherical shells, several shells (hcat/vcat of the tiles) and the four-index assembly the statement is
-       decided by the correspondence search only.  At shell-block level (the input of the flattening) the law is
+       Cartesian / spherical / mixed, with transform).  For the two-index functions it is proved for ONE pair of
+       shells of any coordinate types (the four C13_generalized_is_segmented_assembled .._partial theorems: the
+       processed block is the segment-major matrix of the tiles; overlap_integral_asymmetric([sa], [sb]) = the
+       same of the single-column shells, with transforms; any frame kernel); for several shells per basis (hcat /
+       vcat of the blocks), the symmetric assembly and the four-index assembly the statement is decided by the
+       correspondence search only.  At shell-block level (the input of the flattening) the law is
        proved for every kernel (the C13_generalized_is_segmented theorems).
      column_scale, ASSEMBLED: "for every public function, multiplying a column by k > 0 changes nothing and by
        k < 0 flips the sign of that function".  Proved assembled for overlap_integral(_asymmetric) and positive
@@ -740,46 +742,61 @@ Theorem C13_column_scale_assembled_asymm_partial :
 Proof. exact (@overlap_integral_asymm_scale_pos). Qed.
 Print Assumptions C13_column_scale_assembled_asymm_partial.
 
-(* assembled, two-index (partial: Cartesian shells, one pair of shells): the processed block (norm_cont applied, flattened) of two generalized shells is the matrix of the processed blocks of their single-column shells, tiles in segment-major order; any frame kernel G *)
-Theorem C13_generalized_is_segmented_assembled_two_index_partial :
+(* assembled, two-index (partial: ONE pair of shells, any coordinate types): the processed block (norm_cont applied, spherical transforms applied, flattened) of two generalized shells is the matrix of the processed blocks of their single-column shells, tiles in segment-major order on both sides; any kernel G that reads only the frames of the shells *)
+Theorem C13_generalized_is_segmented_assembled_pair_partial :
   forall (F : Type) (K : Fops F) (G : shell F -> shell F -> F -> F -> comp -> comp -> F)
   (sa sb : shell F),
-  s_sph sa = false ->
-  s_sph sb = false ->
   (forall ma mb : nat, G (col_shell K sa ma) (col_shell K sb mb) = G sa sb) ->
   pblock K (f0 K) (fadd K) (fmul K) (kblockf K G) (prep K sa) (prep K sb) =
   concat
   (mk (nseg sa)
   (fun ma : nat =>
-  mk (ncomp sa)
-  (fun ia : nat =>
+  mk (if s_sph sa then length (shell_transform K sa) else ncomp sa)
+  (fun i : nat =>
   concat
   (mk (nseg sb)
   (fun mb : nat =>
-  nth ia
+  nth i
   (pblock K (f0 K) (fadd K) (fmul K) (kblockf K G) (prep K (col_shell K sa ma))
   (prep K (col_shell K sb mb))) []))))).
-Proof. exact (@pblock_segment_major_cart). Qed.
-Print Assumptions C13_generalized_is_segmented_assembled_two_index_partial.
+Proof. exact (@pblock_segment_major). Qed.
+Print Assumptions C13_generalized_is_segmented_assembled_pair_partial.
 
-Theorem C13_generalized_is_segmented_assembled_overlap_partial :
+Theorem C13_generalized_is_segmented_assembled_overlap_pair_partial :
   forall (F : Type) (K : Fops F) (sa sb : shell F),
-  s_sph sa = false ->
-  s_sph sb = false ->
   pblock K (f0 K) (fadd K) (fmul K) (overlap_block K) (prep K sa) (prep K sb) =
   concat
   (mk (nseg sa)
   (fun ma : nat =>
-  mk (ncomp sa)
-  (fun ia : nat =>
+  mk (if s_sph sa then length (shell_transform K sa) else ncomp sa)
+  (fun i : nat =>
   concat
   (mk (nseg sb)
   (fun mb : nat =>
-  nth ia
+  nth i
   (pblock K (f0 K) (fadd K) (fmul K) (overlap_block K)
   (prep K (col_shell K sa ma)) (prep K (col_shell K sb mb))) []))))).
-Proof. exact (@overlap_pblock_segment_major_cart). Qed.
-Print Assumptions C13_generalized_is_segmented_assembled_overlap_partial.
+Proof. exact (@overlap_pblock_segment_major). Qed.
+Print Assumptions C13_generalized_is_segmented_assembled_overlap_pair_partial.
+
+(* public-function level (partial: one generalized shell on each side): the base_two_asymm array of ([sa], [sb]) equals that of (single-column shells of sa, single-column shells of sb), with or without transforms *)
+Theorem C13_generalized_is_segmented_assembled_two_asymm_partial :
+  forall (F : Type) (K : Fops F) (G : shell F -> shell F -> F -> F -> comp -> comp -> F)
+  (sa sb : shell F) (T1 T2 : option (list (list F))),
+  (0 < nseg sb)%nat ->
+  (forall ma mb : nat, G (col_shell K sa ma) (col_shell K sb mb) = G sa sb) ->
+  two_asymm_integral K (f0 K) (fadd K) (fmul K) (kblockf K G) (segments K sa) (segments K sb) T1 T2 =
+  two_asymm_integral K (f0 K) (fadd K) (fmul K) (kblockf K G) [sa] [sb] T1 T2.
+Proof. exact (@two_asymm_pair_segmented). Qed.
+Print Assumptions C13_generalized_is_segmented_assembled_two_asymm_partial.
+
+Theorem C13_generalized_is_segmented_assembled_overlap_asymm_partial :
+  forall (F : Type) (K : Fops F) (sa sb : shell F) (T1 T2 : option (list (list F))),
+  (0 < nseg sb)%nat ->
+  overlap_integral_asymm K (segments K sa) (segments K sb) T1 T2 =
+  overlap_integral_asymm K [sa] [sb] T1 T2.
+Proof. exact (@overlap_asymm_pair_segmented). Qed.
+Print Assumptions C13_generalized_is_segmented_assembled_overlap_asymm_partial.
 
 (* 4. for the one-electron Boys kernel: linear through the horizontal recursion *)
 Theorem C13_unnormalised_linear_one_elec_add_a :
